@@ -17,6 +17,8 @@ func init() {
 			a.pickKeysTable()
 			a.retireOrder("S.retire-order")
 			a.c04Split("P.nul-split")
+			a.acceptPathErrorTable("P.accept-errors")
+			a.c18SendDispatch("P.send-dispatch")
 			a.c14Sender()
 			a.c14Predicates()
 			a.c14ReceiveOrder()
@@ -218,10 +220,27 @@ func (a *An) c04Split(rule string) {
 			continue
 		}
 		t := a.C.Term(st.Val)
+		// a result of a new single-use helper: each value the helper can return there
+		if alts := a.helperAlternatives(st.Val); len(alts) > 0 {
+			okAll := true
+			for _, alt := range alts {
+				at := a.C.Term(alt)
+				if !(at == "$msg" || strings.HasPrefix(at, "$msg[:phi(")) {
+					okAll = false
+					t = at
+				}
+			}
+			if okAll {
+				t = "$msg"
+			}
+		}
 		R.Check(t == "$msg" || strings.HasPrefix(t, "$msg[:phi("), rule, "split|message|"+t[:min2(len(t), 12)], "the text is everything before the first NUL (or the whole plaintext when there is none)", a.C.InstrPos(st), "message = "+t)
 	}
 	// the scan stops at the first NUL
-	loops := naturalLoops(fn)
+	var loops []*Loop
+	for _, g := range a.ownedFns(fn) {
+		loops = append(loops, naturalLoops(g)...)
+	}
 	found := false
 	for _, l := range loops {
 		if iff, ok := l.Header.Instrs[len(l.Header.Instrs)-1].(*ssa.If); ok {
@@ -233,7 +252,7 @@ func (a *An) c04Split(rule string) {
 						if bo, isBO := i2.Cond.(*ssa.BinOp); isBO && bo.Op.String() == "!=" && a.C.Term(bo.Y) == "0" {
 							if ld, isLd := bo.X.(*ssa.UnOp); isLd {
 								if ia, isIA := ld.X.(*ssa.IndexAddr); isIA {
-									if prm, isP := ia.X.(*ssa.Parameter); isP && prm.Name() == "msg" && b.Succs[0] != nil && l.Body[b.Succs[0]] && !l.Body[b.Succs[1]] {
+									if prm, isP := a.C.resolveParam(ia.X).(*ssa.Parameter); isP && prm.Parent() == fn && paramIndex(prm) == 1 && b.Succs[0] != nil && l.Body[b.Succs[0]] && !l.Body[b.Succs[1]] {
 										found = true
 									}
 								}
@@ -261,4 +280,43 @@ func (a *An) c04Split(rule string) {
 		_ = wf
 		_ = at
 	}
+}
+
+// ownedFns: fn and the new single-use helpers that belong to it (terms.go).
+func (a *An) ownedFns(fn *ssa.Function) []*ssa.Function {
+	out := []*ssa.Function{fn}
+	for _, g := range a.C.FuncSeq {
+		if g != fn && a.C.isNew(g) && a.C.owner(g) == fn {
+			out = append(out, g)
+		}
+	}
+	return out
+}
+
+// helperAlternatives: for a result of a call of a new single-use helper, the values the helper returns there (one per
+// return); nil for any other value.
+func (a *An) helperAlternatives(v ssa.Value) []ssa.Value {
+	ex, ok := v.(*ssa.Extract)
+	var call *ssa.Call
+	idx := 0
+	if ok {
+		call, _ = ex.Tuple.(*ssa.Call)
+		idx = ex.Index
+	} else if c, isC := v.(*ssa.Call); isC {
+		call = c
+	}
+	if call == nil {
+		return nil
+	}
+	g := call.Call.StaticCallee()
+	if g == nil || !a.C.isNew(g) || a.C.soleCall(g) != ssa.CallInstruction(call) {
+		return nil
+	}
+	var out []ssa.Value
+	for _, r := range a.returnsOf(g) {
+		if idx < len(r.Results) {
+			out = append(out, resolveLocal(r.Results[idx]))
+		}
+	}
+	return out
 }
